@@ -6,6 +6,8 @@ package drpcsignal
 import (
 	"sync"
 	"sync/atomic"
+
+	"storj.io/drpc/drpcdebug"
 )
 
 var closed = make(chan struct{})
@@ -21,15 +23,20 @@ type Chan struct {
 }
 
 func (c *Chan) do(f func()) bool {
+	drpcdebug.Point("chan.do.load")
 	return atomic.LoadUint32(&c.done) == 0 && c.doSlow(f)
 }
 
 func (c *Chan) doSlow(f func()) bool {
+	drpcdebug.Point("chan.doslow.lock")
 	c.mu.Lock()
 	defer c.mu.Unlock()
+	defer drpcdebug.Point("chan.doslow.unlock")
 
 	if c.done == 0 {
 		defer atomic.StoreUint32(&c.done, 1)
+		defer drpcdebug.Point("chan.doslow.store")
+		drpcdebug.Point("chan.doslow.f")
 		f()
 		return true
 	}
@@ -51,6 +58,7 @@ func (c *Chan) setClosed() {
 // one otherwise.
 func (c *Chan) Close() {
 	if !c.do(c.setClosed) {
+		drpcdebug.Point("chan.close.close")
 		close(c.ch)
 	}
 }
@@ -65,18 +73,21 @@ func (c *Chan) Make(cap uint) {
 // Get returns the channel, allocating if necessary.
 func (c *Chan) Get() chan struct{} {
 	c.do(c.setFresh)
+	drpcdebug.Point("chan.get.ret")
 	return c.ch
 }
 
 // Send sends a value on the channel, allocating if necessary.
 func (c *Chan) Send() {
 	c.do(c.setFresh)
+	drpcdebug.Point("chan.send.op")
 	c.ch <- struct{}{}
 }
 
 // Recv receives a value on the channel, allocating if necessary.
 func (c *Chan) Recv() {
 	c.do(c.setFresh)
+	drpcdebug.Point("chan.recv.op")
 	<-c.ch
 }
 
@@ -85,6 +96,7 @@ func (c *Chan) Recv() {
 func (c *Chan) Full() bool {
 	c.do(c.setFresh)
 
+	drpcdebug.Point("chan.full.op")
 	select {
 	case c.ch <- struct{}{}:
 		<-c.ch
